@@ -1,6 +1,7 @@
 package c12
 
 import (
+	"time"
 	"errors"
 	"fmt"
 	"strings"
@@ -67,8 +68,28 @@ func TestRouterRegistry(t *testing.T) {
 			opts = append(opts, router.WithFallback(fallback.fn("fallback")))
 		}
 		var changes []router.Change
-		opts = append(opts, router.WithOnChange(func(c router.Change) { changes = append(changes, c) }))
-		r := router.NewRouter(opts...)
+		// some listeners consult the router they listen to (no locks are held when callbacks are invoked): what they see
+		// is the registry after the transition they are told about
+		reenter := rapid.Bool().Draw(t, "listenerConsultsRouter")
+		var r router.Router
+		var reentry string
+		opts = append(opts, router.WithOnChange(func(c router.Change) {
+			changes = append(changes, c)
+			if !reenter || reentry != "" {
+				return
+			}
+			done := make(chan bool, 1)
+			go func() { done <- r.Has(c.Name) }()
+			select {
+			case has := <-done:
+				if has != (c.New != nil) {
+					reentry = fmt.Sprintf("inside the callback for %+v, Has(%q) = %v", c, c.Name, has)
+				}
+			case <-time.After(3 * time.Second):
+				reentry = fmt.Sprintf("inside the callback for %+v, Has(%q) had not returned after 3s: the router is locked while it calls back", c, c.Name)
+			}
+		}))
+		r = router.NewRouter(opts...)
 		model := map[string]any{}
 		var wantChanges []router.Change
 		var hist []string
@@ -177,6 +198,9 @@ func TestRouterRegistry(t *testing.T) {
 					t.Fatalf("Get(%q)=(%v,%v) with no client available, want NotFound\nhistory: %s", name, got, err, strings.Join(hist, " "))
 				}
 			}
+		}
+		if reentry != "" {
+			t.Fatalf("%s\nhistory: %s", reentry, strings.Join(hist, " "))
 		}
 		if len(changes) != len(wantChanges) {
 			t.Fatalf("change callback fired %d times, the model has %d transitions\n got  %+v\n want %+v\nhistory: %s", len(changes), len(wantChanges), changes, wantChanges, strings.Join(hist, " "))
